@@ -10,17 +10,32 @@ package fees
 //@ model fee(*Store) array[string]int
 //@ model feeTotal(*Store) int
 
-// typed view of the store's State prefix: assumed (rests on C09 and T-SER), like balance.get/set
-//@ assume func (*Store).Get
+// Get/Set are VERIFIED at the raw layer (`claims`: checked on the body, not handed to callers), like balance.get/set: the
+// amount of address a lives under st.prefix ++ a of the store's State; a successful Set leaves exactly the serialised amount
+// there and writes nothing else, a failed one writes nothing; Get decodes what is visible under that key and answers 0 for an
+// absent / empty record. TRUSTED (per clause): the identification of the ghost ledger fee(st)[a] with that raw record.
+//@ ghost func feeRawKey(st *Store, a bytes) string = str(st.prefix) + str(a)
+//@ func (*Store).Get
 //@   requires st != nil && st.feeOpt != nil
+//@   assumes st.state != nil && wfState(st.state)
 //@   modifies nothing
-//@   ensures err == nil && coin.Amount != nil && fresh(coin.Amount) && big(coin.Amount) == fee(st)[str(address)] && coin.Currency == st.feeOpt.FeeCurrency
+//@   trustframe
+//@   ensures err == nil && coin.Amount != nil && fresh(coin.Amount) && coin.Currency == st.feeOpt.FeeCurrency
+//@   trusts big(coin.Amount) == fee(st)[str(address)]
+//@   claims !old(exhausted(st.state.cache)) && vHas(st.state)[feeRawKey(st, address)] && len(vVal(st.state)[feeRawKey(st, address)]) != 0 && deserok(vVal(st.state)[feeRawKey(st, address)], "balance.Amount") ==> big(coin.Amount) == deser(vVal(st.state)[feeRawKey(st, address)], "balance.Amount")   // C02.raw-record
+//@   claims !old(exhausted(st.state.cache)) && vHas(st.state)[feeRawKey(st, address)] && len(vVal(st.state)[feeRawKey(st, address)]) == 0 ==> big(coin.Amount) == 0   // C02.raw-record
 
-//@ assume func (*Store).Set
+//@ func (*Store).Set
 //@   requires st != nil && coin.Amount != nil
+//@   assumes st.state != nil && wfState(st.state)
+//@   assumes !tomb(ser(coin.Amount, "*balance.Amount"))                                                          // A-NOTOMB a serialised record is never the deletion marker
 //@   modifies fee(st)[str(address)], vHas(st.state), vVal(st.state)
-//@   ensures err == nil ==> fee(st)[str(address)] == big(coin.Amount)
-//@   ensures err != nil ==> fee(st)[str(address)] == old(fee(st))[str(address)]
+//@   trustframe
+//@   trusts err == nil ==> fee(st)[str(address)] == big(coin.Amount)
+//@   trusts err != nil ==> fee(st)[str(address)] == old(fee(st))[str(address)]
+//@   claims err == nil ==> vHas(st.state)[feeRawKey(st, address)] && vVal(st.state)[feeRawKey(st, address)] == ser(coin.Amount, "*balance.Amount")   // C02.raw-record
+//@   claims err == nil ==> forall k string :: k != feeRawKey(st, address) ==> vHas(st.state)[k] == old(vHas(st.state))[k] && vVal(st.state)[k] == old(vVal(st.state))[k]   // C02.raw-record
+//@   claims err != nil ==> vHas(st.state) == old(vHas(st.state)) && vVal(st.state) == old(vVal(st.state))   // C02.raw-record
 
 //@ func (*Store).AddToAddress
 //@   safety C18
